@@ -161,6 +161,45 @@ func reviewedDeadPanic(p *Prog, site panicSite) (bool, string) {
 	}
 	// the argument is a Dir / Message
 	arg := stripConv(call.Call.Args[0])
+	// … or the parameter of a helper (`sizefields9p(v interface{})`) every call of which hands over a Dir / Message
+	if prm, isPrm := arg.(*ssa.Parameter); isPrm && !isP9P(prm.Type(), "Dir") && !isP9P(prm.Type(), "Message") {
+		g := prm.Parent()
+		idx := -1
+		for i, q := range g.Params {
+			if q == prm {
+				idx = i
+			}
+		}
+		sites, exact := p.staticCallSites(g)
+		if idx < 0 || !exact || len(sites) == 0 {
+			return false, "fields9p argument is a helper parameter whose callers are not all known"
+		}
+		needMsg := false
+		for _, c := range sites {
+			a := stripConv(c.Call.Args[idx])
+			if mi, ok := a.(*ssa.MakeInterface); ok {
+				a = mi.X
+			}
+			at := a.Type()
+			switch {
+			case isP9P(at, "Dir"):
+				if _, ok := at.Underlying().(*types.Struct); !ok {
+					return false, "a caller of " + fnName(g) + " hands over a Dir that is not a struct"
+				}
+			case isP9P(at, "Message"):
+				needMsg = true
+			default:
+				return false, "a caller of " + fnName(g) + " hands over a " + shortType(at) + ": fields9p can fail"
+			}
+		}
+		if needMsg {
+			bad, n := messageImplementersAreStructs(p)
+			if len(bad) != 0 || n == 0 {
+				return false, "a Message implementer is not a struct: " + strings.Join(bad, ",")
+			}
+		}
+		return true, "fields9p(helper parameter): every caller of " + fnName(g) + " hands over a Dir or a Message (all structs), fields9p fails only for non-structs"
+	}
 	t := arg.Type()
 	if isP9P(t, "Dir") {
 		if _, ok := t.Underlying().(*types.Struct); ok {
